@@ -34,6 +34,7 @@ import FV.Model.Context
 import FV.Props.C04
 import FV.Proofs.Headers
 import FV.Proofs.Context
+import FV.Proofs.ContextOnward
 
 namespace FV.C09
 open FV FV.C04
@@ -308,6 +309,54 @@ theorem c09_response_seen (U : Hdrs) (cid : Bytes) (opid : Nat) (ms : Int) (ctr 
     simp [replyIds, hc, Hdrs.get?, op_ne_cid]
   · show Hdrs.get? (Hdrs.setAll prior (w'.without opIdHeader)) opIdHeader = _
     exact Hdrs.get?_setAll_not_mem _ opIdHeader (Hdrs.not_mem_without w' opIdHeader) prior
+
+/-- **An onward call never removes a response header the handler set.** `wireReply cc s` is what
+`FStandardClient.Call(cc, …)` does to the calling context `cc` when the downstream handler's context
+is `s` (WriteResponseHeader(s) → bytes → ReadResponseHeader(cc)); `cc` is the handler's INBOUND
+context when the handler makes the onward call with it. The call leaves the request headers alone,
+every response header present before is present afterwards, and it keeps its value unless the
+downstream reply carries the same name (`_opid` is never taken from the reply). -/
+theorem c09_onward_call_keeps_own_response_headers (cc s cc' : Ctx) (rest : Bytes)
+    (h : wireReply cc s = .ok (cc', rest)) :
+    cc'.req = cc.req ∧
+    (∀ k v, cc.resp.get? k = some v → ∃ v', cc'.resp.get? k = some v') ∧
+    (∃ d, unmarshalStream (marshal s.resp) = .ok (d, rest) ∧
+      ∀ k v, cc.resp.get? k = some v → (k = opIdHeader ∨ k ∉ d.keys) → cc'.resp.get? k = some v) := by
+  obtain ⟨d, hu, rfl⟩ := wireReply_merge cc s cc' rest h
+  refine ⟨rfl, ?_, d, hu, ?_⟩
+  · intro k v hk
+    obtain ⟨v', h1, _⟩ := Hdrs.get?_setAll_some (d.without opIdHeader) cc.resp k v hk
+    exact ⟨v', h1⟩
+  · intro k v hk hor
+    obtain ⟨v', h1, h2⟩ := Hdrs.get?_setAll_some (d.without opIdHeader) cc.resp k v hk
+    have hn : k ∉ (d.without opIdHeader).keys := by
+      rcases hor with e | hnd
+      · subst e; exact Hdrs.not_mem_without d opIdHeader
+      · exact fun hm => hnd ((Hdrs.without_keys_sublist d opIdHeader).subset hm)
+    show Hdrs.get? (Hdrs.setAll cc.resp (d.without opIdHeader)) k = some v
+    rw [h1, h2 hn]
+
+/-- **Whatever a handler does after setting a response header — more headers, request headers,
+any number of onward calls with its inbound context or with clones, to any depth — the header is
+still on its context when it returns** (so by `c09_response_seen` its caller sees it; the value is
+the last one written for that name by the handler or merged from a reply). Stated for every script
+and every context: response headers present before a script are present after it, in particular
+the one just set by `AddResponseHeader`. -/
+theorem c09_script_keeps_response_headers (acts : List HAct) (c c' : Ctx) (ctr ctr' : Nat) (tr : List Hdrs) :
+    (runActs acts c ctr = .ok (c', ctr', tr) → ∀ k v, c.resp.get? k = some v → ∃ v', c'.resp.get? k = some v') ∧
+    (∀ k v, runActs (.setResp k v :: acts) c ctr = .ok (c', ctr', tr) → ∃ v', c'.resp.get? k = some v') := by
+  have key : ∀ (acts : List HAct) (c : Ctx), runActs acts c ctr = .ok (c', ctr', tr) →
+      ∀ k v, c.resp.get? k = some v → ∃ v', c'.resp.get? k = some v' := by
+    intro acts c h
+    exact runActsW_keeps wireRequest wireReply
+      (fun cc s cc' rest hr => (c09_onward_call_keeps_own_response_headers cc s cc' rest hr).2.1) acts c ctr c' ctr' tr h
+  refine ⟨key acts c, ?_⟩
+  intro k v h
+  have h' : runActs acts (c.addResponseHeader k v) ctr = .ok (c', ctr', tr) := by
+    unfold runActs at h ⊢
+    rw [runActsW] at h
+    exact h
+  exact key acts _ h' k v (Hdrs.get?_set_same c.resp k v)
 
 /-- **The timeout codec**: the `_timeout` header written for `ms` milliseconds (any int64)
 parses back to `ms`; `SetTimeout(ms·1ms)` followed by `Timeout()` is the identity on whole
